@@ -344,14 +344,16 @@ func runC05(c *Ctx, ambient bool) {
 		}
 	}
 	if t.Bool(1, 3, "staged-uncommitted") {
-		h.WriteFile("staged.bin", h.NewContent())
-		w.Git(u1, "add", "staged.bin")
+		stagedPath := []string{"staged.bin", "dir/staged.bin", "staged.dat"}[t.Choose(3, "staged-path")]
+		os.MkdirAll(filepath.Join(u1, "dir"), 0755)
+		h.WriteFile(stagedPath, h.NewContent())
+		w.Git(u1, "add", stagedPath)
 		// the staged version may differ from what is in the working tree now
 		switch t.Choose(3, "after-staging") {
 		case 1:
-			h.WriteFile("staged.bin", h.NewContent())
+			h.WriteFile(stagedPath, h.NewContent())
 		case 2:
-			os.Remove(filepath.Join(u1, "staged.bin"))
+			os.Remove(filepath.Join(u1, stagedPath))
 		}
 	}
 	if t.Bool(1, 5, "detached-head") {
@@ -419,10 +421,22 @@ func runC05(c *Ctx, ambient bool) {
 
 	// ---- must-retain set (under-approximation of the statement), by plumbing ----
 	ret := &retainSet{why: map[string]string{}, exclude: exclude}
+	pushedIdx := w.ReachablePointers(u1, "--remotes="+pruneRemote)
 	if !force {
 		for _, wt := range worktrees {
 			ret.addPtrsFiltered(treeByOid(w.TreePointers(wt, "HEAD")), "HEAD of worktree "+filepath.Base(wt))
-			ret.addPtrsFiltered(treeByOid(w.IndexPointers(wt)), "index of worktree "+filepath.Base(wt))
+			// what is staged and exists nowhere on the prune remote is unpushed
+			// work like any other: lfs.fetchexclude does not make it prunable
+			idxPushed, idxOnlyLocal := map[string]*PtrRef{}, map[string]*PtrRef{}
+			for oid, pr := range treeByOid(w.IndexPointers(wt)) {
+				if _, pushed := pushedIdx[oid]; pushed {
+					idxPushed[oid] = pr
+				} else {
+					idxOnlyLocal[oid] = pr
+				}
+			}
+			ret.addPtrsFiltered(idxPushed, "index of worktree "+filepath.Base(wt))
+			ret.addPtrs(idxOnlyLocal, "index of worktree "+filepath.Base(wt)+" (staged, never pushed)")
 		}
 	}
 	// stashes
